@@ -245,13 +245,13 @@ theorem sd_sign (τ : Tol K) (D : Dom K) : ∀ (pts ρ : Env K) (m : K), D.solid
     split at h
     · rename_i x tx hp ht
       try simp only [hp, ht]
-      exact ih _ ρ m hs h
+      exact ih _ _ m hs h
     · rename_i x y tx ty hp ht
       try simp only [hp, ht]
-      exact ih _ ρ m hs h
+      exact ih _ _ m hs h
     · rename_i x y z tx ty tz hp ht
       try simp only [hp, ht]
-      exact ih _ ρ m hs h
+      exact ih _ _ m hs h
     · simp at h
   | rotate v d mm c ih =>
     intro pts ρ m hs h
@@ -260,7 +260,7 @@ theorem sd_sign (τ : Tol K) (D : Dom K) : ∀ (pts ρ : Env K) (m : K), D.solid
     split at h
     · rename_i x y m00 m01 m10 m11 cx cy hp hm hc
       try simp only [hp, hm, hc]
-      exact ih _ ρ m hs h
+      exact ih _ _ m hs h
     · simp at h
   | bdry d _ => intro _ _ _ hs; exact absurd hs (by simp [Dom.solid])
   | bdryL d _ => intro _ _ _ hs; exact absurd hs (by simp [Dom.solid])
@@ -431,6 +431,11 @@ def PFun.indep (f : PFun K) (v : String) : Prop := ∀ (x : List K) (ρ : Env K)
 
 theorem env_get_head (v : String) (x : List K) (ρ : Env K) : Env.get ((v, x) :: ρ) v = some x := by
   simp [Env.get, List.lookup]
+
+/-- a sampled point of a single-variable domain has no other coordinates to hand down -/
+theorem filter_single (v : String) (x : List K) (ρ : Env K) :
+    List.filter (fun b : String × List K => b.1 != v) [(v, x)] ++ ρ = ρ := by
+  simp [List.filter]
 
 theorem intervalSample_bounds (l u t : K) (hlu : l ≤ u) (h0 : 0 ≤ t) (h1 : t ≤ 1) :
     l ≤ intervalSample l u t ∧ intervalSample l u t ≤ u := by
@@ -614,14 +619,14 @@ theorem translate_sample_mem (v : String) (d : Dom K) (t : PFun K) (ρ inner pts
     split at hq <;> try (simp at hq)
     · rename_i x tx htx
       subst hq
-      exact Or.inl ⟨x, _, tx, env_get_head _ _ _, by rw [List.cons_append, List.nil_append, ht, htx], rfl, hm⟩
+      exact Or.inl ⟨x, _, tx, env_get_head _ _ _, by rw [List.cons_append, List.nil_append, ht, htx], rfl, by rw [filter_single]; exact hm⟩
     · rename_i x y tx ty htx
       subst hq
-      exact Or.inr (Or.inl ⟨x, y, _, _, tx, ty, env_get_head _ _ _, by rw [List.cons_append, List.nil_append, ht, htx], rfl, rfl, hm⟩)
+      exact Or.inr (Or.inl ⟨x, y, _, _, tx, ty, env_get_head _ _ _, by rw [List.cons_append, List.nil_append, ht, htx], rfl, rfl, by rw [filter_single]; exact hm⟩)
     · rename_i x y z tx ty tz htx
       subst hq
       exact Or.inr (Or.inr ⟨x, y, z, _, _, _, tx, ty, tz, env_get_head _ _ _,
-        by rw [List.cons_append, List.nil_append, ht, htx], rfl, rfl, rfl, hm⟩)
+        by rw [List.cons_append, List.nil_append, ht, htx], rfl, rfl, rfl, by rw [filter_single]; exact hm⟩)
 
 theorem rotate_sample_mem (v : String) (d : Dom K) (m c : PFun K) (ρ inner pts : Env K) (hm' : m.indep v) (hc : c.indep v)
     (hin : ∃ q, inner = [(v, q)]) (hm : mem d inner ρ) (h : rotateSample v m c ρ inner = some pts) :
@@ -638,7 +643,7 @@ theorem rotate_sample_mem (v : String) (d : Dom K) (m c : PFun K) (ρ inner pts 
     rename_i x y m00 m01 m10 m11 cx cy hmm hcc
     subst hq
     exact ⟨x, y, _, _, m00, m01, m10, m11, cx, cy, env_get_head _ _ _,
-      by rw [List.cons_append, List.nil_append, hm', hmm], by rw [List.cons_append, List.nil_append, hc, hcc], rfl, rfl, hm⟩
+      by rw [List.cons_append, List.nil_append, hm', hmm], by rw [List.cons_append, List.nil_append, hc, hcc], rfl, rfl, by rw [filter_single]; exact hm⟩
 
 
 theorem env_get_append (pa pb : Env K) (v : String) (x : List K) (h : pa.get v = some x) : (pa ++ pb).get v = some x := by
@@ -668,9 +673,11 @@ def EnvAgree : Dom K → Env K → Env K → Env K → Env K → Prop
   | .union a b, p, ρ, p', ρ' | .cut a b, p, ρ, p', ρ' | .inter a b, p, ρ, p', ρ' | .prod a b, p, ρ, p', ρ' =>
     EnvAgree a p ρ p' ρ' ∧ EnvAgree b p ρ p' ρ'
   | .translate v d t, p, ρ, p', ρ' =>
-    p.get v = p'.get v ∧ t.f (p ++ ρ) = t.f (p' ++ ρ') ∧ ∀ q, EnvAgree d [(v, q)] ρ [(v, q)] ρ'
+    p.get v = p'.get v ∧ t.f (p ++ ρ) = t.f (p' ++ ρ') ∧
+      ∀ q, EnvAgree d [(v, q)] (p.filter (fun b => b.1 != v) ++ ρ) [(v, q)] (p'.filter (fun b => b.1 != v) ++ ρ')
   | .rotate v d m c, p, ρ, p', ρ' =>
-    p.get v = p'.get v ∧ m.f (p ++ ρ) = m.f (p' ++ ρ') ∧ c.f (p ++ ρ) = c.f (p' ++ ρ') ∧ ∀ q, EnvAgree d [(v, q)] ρ [(v, q)] ρ'
+    p.get v = p'.get v ∧ m.f (p ++ ρ) = m.f (p' ++ ρ') ∧ c.f (p ++ ρ) = c.f (p' ++ ρ') ∧
+      ∀ q, EnvAgree d [(v, q)] (p.filter (fun b => b.1 != v) ++ ρ) [(v, q)] (p'.filter (fun b => b.1 != v) ++ ρ')
   | .bdry _, _, _, _, _ | .bdryL _, _, _, _, _ | .bdryR _, _, _, _, _ => True
 
 /-- membership only depends on what the expression reads -/
@@ -689,15 +696,19 @@ theorem mem_congr (D : Dom K) : ∀ (p ρ p' ρ' : Env K), EnvAgree D p ρ p' ρ
     intro p ρ p' ρ' h
     obtain ⟨h1, h2, h3⟩ := h
     simp only [mem, h1, h2]
-    have e1 : ∀ q, mem d [(v, [q])] ρ ↔ mem d [(v, [q])] ρ' := fun q => ih _ _ _ _ (h3 [q])
-    have e2 : ∀ q1 q2, mem d [(v, [q1, q2])] ρ ↔ mem d [(v, [q1, q2])] ρ' := fun q1 q2 => ih _ _ _ _ (h3 [q1, q2])
-    have e3 : ∀ q1 q2 q3, mem d [(v, [q1, q2, q3])] ρ ↔ mem d [(v, [q1, q2, q3])] ρ' := fun q1 q2 q3 => ih _ _ _ _ (h3 [q1, q2, q3])
+    have e1 : ∀ q, mem d [(v, [q])] (p.filter (fun b => b.1 != v) ++ ρ) ↔ mem d [(v, [q])] (p'.filter (fun b => b.1 != v) ++ ρ') :=
+      fun q => ih _ _ _ _ (h3 [q])
+    have e2 : ∀ q1 q2, mem d [(v, [q1, q2])] (p.filter (fun b => b.1 != v) ++ ρ) ↔ mem d [(v, [q1, q2])] (p'.filter (fun b => b.1 != v) ++ ρ') :=
+      fun q1 q2 => ih _ _ _ _ (h3 [q1, q2])
+    have e3 : ∀ q1 q2 q3, mem d [(v, [q1, q2, q3])] (p.filter (fun b => b.1 != v) ++ ρ) ↔
+        mem d [(v, [q1, q2, q3])] (p'.filter (fun b => b.1 != v) ++ ρ') := fun q1 q2 q3 => ih _ _ _ _ (h3 [q1, q2, q3])
     simp only [e1, e2, e3]
   | rotate v d m c ih =>
     intro p ρ p' ρ' h
     obtain ⟨h1, h2, h3, h4⟩ := h
     simp only [mem, h1, h2, h3]
-    have e2 : ∀ q1 q2, mem d [(v, [q1, q2])] ρ ↔ mem d [(v, [q1, q2])] ρ' := fun q1 q2 => ih _ _ _ _ (h4 [q1, q2])
+    have e2 : ∀ q1 q2, mem d [(v, [q1, q2])] (p.filter (fun b => b.1 != v) ++ ρ) ↔ mem d [(v, [q1, q2])] (p'.filter (fun b => b.1 != v) ++ ρ') :=
+      fun q1 q2 => ih _ _ _ _ (h4 [q1, q2])
     simp only [e2]
   | bdry d _ => intro p ρ p' ρ' _; simp [mem]
   | bdryL d _ => intro p ρ p' ρ' _; simp [mem]
@@ -743,59 +754,75 @@ theorem envAgree_refl (D : Dom K) : ∀ p ρ, EnvAgree D p ρ p ρ := by
   | cut a b iha ihb => intro p ρ; exact ⟨iha p ρ, ihb p ρ⟩
   | inter a b iha ihb => intro p ρ; exact ⟨iha p ρ, ihb p ρ⟩
   | prod a b iha ihb => intro p ρ; exact ⟨iha p ρ, ihb p ρ⟩
-  | translate v d t ih => intro p ρ; exact ⟨rfl, rfl, fun q => ih _ ρ⟩
-  | rotate v d m c ih => intro p ρ; exact ⟨rfl, rfl, rfl, fun q => ih _ ρ⟩
+  | translate v d t ih => intro p ρ; exact ⟨rfl, rfl, fun q => ih _ _⟩
+  | rotate v d m c ih => intro p ρ; exact ⟨rfl, rfl, rfl, fun q => ih _ _⟩
   | bdry d _ => intro p ρ; trivial
   | bdryL d _ => intro p ρ; trivial
   | bdryR d _ => intro p ρ; trivial
 
-/-- an expression whose parameter functions ignore `pb` does not notice `pb` in the parameter row -/
-theorem envAgree_ignore (pb : Env K) (D : Dom K) : (∀ f ∈ D.pfuns, f.ignores pb) → ∀ p ρ, EnvAgree D p (pb ++ ρ) p ρ := by
+/-- an expression whose parameter functions ignore `X` does not notice `X` anywhere in the parameter row -/
+theorem envAgree_ignore (X : Env K) (D : Dom K) : (∀ f ∈ D.pfuns, f.ignores X) →
+    ∀ p e ρ, EnvAgree D p (e ++ (X ++ ρ)) p (e ++ ρ) := by
+  have key : ∀ (f : PFun K), f.ignores X → ∀ p e ρ : Env K, f.f (p ++ (e ++ (X ++ ρ))) = f.f (p ++ (e ++ ρ)) := by
+    intro f hf p e ρ
+    have := hf (p ++ e) ρ
+    simpa [List.append_assoc] using this
   induction D with
   | interval v lb ub =>
-    intro h p ρ; exact ⟨rfl, h lb (by simp [Dom.pfuns]) p ρ, h ub (by simp [Dom.pfuns]) p ρ⟩
+    intro h p e ρ; exact ⟨rfl, key lb (h lb (by simp [Dom.pfuns])) p e ρ, key ub (h ub (by simp [Dom.pfuns])) p e ρ⟩
   | par v o c1 c2 =>
-    intro h p ρ; exact ⟨rfl, h o (by simp [Dom.pfuns]) p ρ, h c1 (by simp [Dom.pfuns]) p ρ, h c2 (by simp [Dom.pfuns]) p ρ⟩
+    intro h p e ρ
+    exact ⟨rfl, key o (h o (by simp [Dom.pfuns])) p e ρ, key c1 (h c1 (by simp [Dom.pfuns])) p e ρ, key c2 (h c2 (by simp [Dom.pfuns])) p e ρ⟩
   | tri v o c1 c2 =>
-    intro h p ρ; exact ⟨rfl, h o (by simp [Dom.pfuns]) p ρ, h c1 (by simp [Dom.pfuns]) p ρ, h c2 (by simp [Dom.pfuns]) p ρ⟩
-  | circle v c r => intro h p ρ; exact ⟨rfl, h c (by simp [Dom.pfuns]) p ρ, h r (by simp [Dom.pfuns]) p ρ⟩
-  | sphere v c r => intro h p ρ; exact ⟨rfl, h c (by simp [Dom.pfuns]) p ρ, h r (by simp [Dom.pfuns]) p ρ⟩
+    intro h p e ρ
+    exact ⟨rfl, key o (h o (by simp [Dom.pfuns])) p e ρ, key c1 (h c1 (by simp [Dom.pfuns])) p e ρ, key c2 (h c2 (by simp [Dom.pfuns])) p e ρ⟩
+  | circle v c r => intro h p e ρ; exact ⟨rfl, key c (h c (by simp [Dom.pfuns])) p e ρ, key r (h r (by simp [Dom.pfuns])) p e ρ⟩
+  | sphere v c r => intro h p e ρ; exact ⟨rfl, key c (h c (by simp [Dom.pfuns])) p e ρ, key r (h r (by simp [Dom.pfuns])) p e ρ⟩
   | union a b iha ihb =>
-    intro h p ρ
-    exact ⟨iha (fun f hf => h f (by simp [Dom.pfuns, hf])) p ρ, ihb (fun f hf => h f (by simp [Dom.pfuns, hf])) p ρ⟩
+    intro h p e ρ
+    exact ⟨iha (fun f hf => h f (by simp [Dom.pfuns, hf])) p e ρ, ihb (fun f hf => h f (by simp [Dom.pfuns, hf])) p e ρ⟩
   | cut a b iha ihb =>
-    intro h p ρ
-    exact ⟨iha (fun f hf => h f (by simp [Dom.pfuns, hf])) p ρ, ihb (fun f hf => h f (by simp [Dom.pfuns, hf])) p ρ⟩
+    intro h p e ρ
+    exact ⟨iha (fun f hf => h f (by simp [Dom.pfuns, hf])) p e ρ, ihb (fun f hf => h f (by simp [Dom.pfuns, hf])) p e ρ⟩
   | inter a b iha ihb =>
-    intro h p ρ
-    exact ⟨iha (fun f hf => h f (by simp [Dom.pfuns, hf])) p ρ, ihb (fun f hf => h f (by simp [Dom.pfuns, hf])) p ρ⟩
+    intro h p e ρ
+    exact ⟨iha (fun f hf => h f (by simp [Dom.pfuns, hf])) p e ρ, ihb (fun f hf => h f (by simp [Dom.pfuns, hf])) p e ρ⟩
   | prod a b iha ihb =>
-    intro h p ρ
-    exact ⟨iha (fun f hf => h f (by simp [Dom.pfuns, hf])) p ρ, ihb (fun f hf => h f (by simp [Dom.pfuns, hf])) p ρ⟩
+    intro h p e ρ
+    exact ⟨iha (fun f hf => h f (by simp [Dom.pfuns, hf])) p e ρ, ihb (fun f hf => h f (by simp [Dom.pfuns, hf])) p e ρ⟩
   | translate v d t ih =>
-    intro h p ρ
-    exact ⟨rfl, h t (by simp [Dom.pfuns]) p ρ, fun q => ih (fun f hf => h f (by simp [Dom.pfuns, hf])) _ ρ⟩
+    intro h p e ρ
+    refine ⟨rfl, key t (h t (by simp [Dom.pfuns])) p e ρ, fun q => ?_⟩
+    have := ih (fun f hf => h f (by simp [Dom.pfuns, hf])) [(v, q)] (p.filter (fun b => b.1 != v) ++ e) ρ
+    simpa [List.append_assoc] using this
   | rotate v d m c ih =>
-    intro h p ρ
-    exact ⟨rfl, h m (by simp [Dom.pfuns]) p ρ, h c (by simp [Dom.pfuns]) p ρ,
-      fun q => ih (fun f hf => h f (by simp [Dom.pfuns, hf])) _ ρ⟩
-  | bdry d _ => intro _ p ρ; trivial
-  | bdryL d _ => intro _ p ρ; trivial
-  | bdryR d _ => intro _ p ρ; trivial
+    intro h p e ρ
+    refine ⟨rfl, key m (h m (by simp [Dom.pfuns])) p e ρ, key c (h c (by simp [Dom.pfuns])) p e ρ, fun q => ?_⟩
+    have := ih (fun f hf => h f (by simp [Dom.pfuns, hf])) [(v, q)] (p.filter (fun b => b.1 != v) ++ e) ρ
+    simpa [List.append_assoc] using this
+  | bdry d _ => intro _ p e ρ; trivial
+  | bdryL d _ => intro _ p e ρ; trivial
+  | bdryR d _ => intro _ p e ρ; trivial
 
-/-- inner expressions of translate / rotate nodes do not read `pb` (the code evaluates them at the moved point
-    and the parameter row only — a dependent product whose first factor is a moved shape that itself depends
-    on the second factor raises in the code) -/
-def MotionIgnores (pb : Env K) : Dom K → Prop
-  | .interval .. | .par .. | .tri .. | .circle .. | .sphere .. => True
-  | .union a b | .cut a b | .inter a b | .prod a b => MotionIgnores pb a ∧ MotionIgnores pb b
-  | .translate _ d _ | .rotate _ d _ _ => ∀ f ∈ d.pfuns, f.ignores pb
-  | .bdry _ | .bdryL _ | .bdryR _ => True
+theorem filter_of_get_none (pb : Env K) (v : String) (h : pb.get v = none) : pb.filter (fun b => b.1 != v) = pb := by
+  unfold Env.get at h
+  induction pb with
+  | nil => rfl
+  | cons hd tl ih =>
+    obtain ⟨k, val⟩ := hd
+    simp only [List.lookup] at h
+    split at h
+    · simp at h
+    · rename_i hne
+      have hk : (k != v) = true := by
+        rw [bne_iff_ne]; intro hkv; subst hkv; simp at hne
+      simp only [List.filter, hk, ih h]
 
-/-- **first factor, any expression**: moving the second factor's coordinates `pb` from the parameter row into the
-    point row changes nothing, provided the leaves' variables are bound in `pa` -/
-theorem envAgree_assoc (a : Dom K) (ρ pa pb : Env K) (hm : MotionIgnores pb a)
-    (hv : ∀ v ∈ a.leafVars, ∃ x, pa.get v = some x) :
+/-- **first factor, any expression** (also with translate / rotate nodes, since /repo 414d4d6 hands the partner's
+    coordinates down): moving the second factor's coordinates `pb` from the parameter row into the point row
+    changes nothing, provided the leaves' variables are bound in `pa` and not in `pb` -/
+theorem envAgree_assoc (a : Dom K) (ρ pa pb : Env K)
+    (hv : ∀ v ∈ a.leafVars, ∃ x, pa.get v = some x) (hpb : ∀ v ∈ a.leafVars, pb.get v = none) :
     EnvAgree a pa (pb ++ ρ) (pa ++ pb) ρ := by
   induction a with
   | interval v lb ub =>
@@ -814,20 +841,27 @@ theorem envAgree_assoc (a : Dom K) (ρ pa pb : Env K) (hm : MotionIgnores pb a)
     obtain ⟨x, hx⟩ := hv v (by simp [Dom.leafVars])
     exact ⟨by rw [hx, env_get_append pa pb v x hx], by rw [List.append_assoc], by rw [List.append_assoc]⟩
   | union a b iha ihb =>
-    exact ⟨iha hm.1 (fun v h => hv v (by simp [Dom.leafVars, h])), ihb hm.2 (fun v h => hv v (by simp [Dom.leafVars, h]))⟩
+    exact ⟨iha (fun v h => hv v (by simp [Dom.leafVars, h])) (fun v h => hpb v (by simp [Dom.leafVars, h])),
+      ihb (fun v h => hv v (by simp [Dom.leafVars, h])) (fun v h => hpb v (by simp [Dom.leafVars, h]))⟩
   | cut a b iha ihb =>
-    exact ⟨iha hm.1 (fun v h => hv v (by simp [Dom.leafVars, h])), ihb hm.2 (fun v h => hv v (by simp [Dom.leafVars, h]))⟩
+    exact ⟨iha (fun v h => hv v (by simp [Dom.leafVars, h])) (fun v h => hpb v (by simp [Dom.leafVars, h])),
+      ihb (fun v h => hv v (by simp [Dom.leafVars, h])) (fun v h => hpb v (by simp [Dom.leafVars, h]))⟩
   | inter a b iha ihb =>
-    exact ⟨iha hm.1 (fun v h => hv v (by simp [Dom.leafVars, h])), ihb hm.2 (fun v h => hv v (by simp [Dom.leafVars, h]))⟩
+    exact ⟨iha (fun v h => hv v (by simp [Dom.leafVars, h])) (fun v h => hpb v (by simp [Dom.leafVars, h])),
+      ihb (fun v h => hv v (by simp [Dom.leafVars, h])) (fun v h => hpb v (by simp [Dom.leafVars, h]))⟩
   | prod a b iha ihb =>
-    exact ⟨iha hm.1 (fun v h => hv v (by simp [Dom.leafVars, h])), ihb hm.2 (fun v h => hv v (by simp [Dom.leafVars, h]))⟩
+    exact ⟨iha (fun v h => hv v (by simp [Dom.leafVars, h])) (fun v h => hpb v (by simp [Dom.leafVars, h])),
+      ihb (fun v h => hv v (by simp [Dom.leafVars, h])) (fun v h => hpb v (by simp [Dom.leafVars, h]))⟩
   | translate v d t _ =>
     obtain ⟨x, hx⟩ := hv v (by simp [Dom.leafVars])
-    exact ⟨by rw [hx, env_get_append pa pb v x hx], by rw [List.append_assoc], fun q => envAgree_ignore pb d hm _ ρ⟩
+    refine ⟨by rw [hx, env_get_append pa pb v x hx], by rw [List.append_assoc], fun q => ?_⟩
+    rw [List.filter_append, filter_of_get_none pb v (hpb v (by simp [Dom.leafVars])), List.append_assoc]
+    exact envAgree_refl d _ _
   | rotate v d m c _ =>
     obtain ⟨x, hx⟩ := hv v (by simp [Dom.leafVars])
-    exact ⟨by rw [hx, env_get_append pa pb v x hx], by rw [List.append_assoc], by rw [List.append_assoc],
-      fun q => envAgree_ignore pb d hm _ ρ⟩
+    refine ⟨by rw [hx, env_get_append pa pb v x hx], by rw [List.append_assoc], by rw [List.append_assoc], fun q => ?_⟩
+    rw [List.filter_append, filter_of_get_none pb v (hpb v (by simp [Dom.leafVars])), List.append_assoc]
+    exact envAgree_refl d _ _
   | bdry d _ => trivial
   | bdryL d _ => trivial
   | bdryR d _ => trivial
@@ -843,33 +877,53 @@ theorem env_get_append_none (pa pb : Env K) (v : String) (h : pa.get v = none) :
     · simp at h
     · exact ih h
 
+theorem envAgree_symm (D : Dom K) : ∀ p ρ p' ρ', EnvAgree D p ρ p' ρ' → EnvAgree D p' ρ' p ρ := by
+  induction D with
+  | interval v lb ub => intro p ρ p' ρ' h; exact ⟨h.1.symm, h.2.1.symm, h.2.2.symm⟩
+  | par v o c1 c2 => intro p ρ p' ρ' h; exact ⟨h.1.symm, h.2.1.symm, h.2.2.1.symm, h.2.2.2.symm⟩
+  | tri v o c1 c2 => intro p ρ p' ρ' h; exact ⟨h.1.symm, h.2.1.symm, h.2.2.1.symm, h.2.2.2.symm⟩
+  | circle v c r => intro p ρ p' ρ' h; exact ⟨h.1.symm, h.2.1.symm, h.2.2.symm⟩
+  | sphere v c r => intro p ρ p' ρ' h; exact ⟨h.1.symm, h.2.1.symm, h.2.2.symm⟩
+  | union a b iha ihb => intro p ρ p' ρ' h; exact ⟨iha _ _ _ _ h.1, ihb _ _ _ _ h.2⟩
+  | cut a b iha ihb => intro p ρ p' ρ' h; exact ⟨iha _ _ _ _ h.1, ihb _ _ _ _ h.2⟩
+  | inter a b iha ihb => intro p ρ p' ρ' h; exact ⟨iha _ _ _ _ h.1, ihb _ _ _ _ h.2⟩
+  | prod a b iha ihb => intro p ρ p' ρ' h; exact ⟨iha _ _ _ _ h.1, ihb _ _ _ _ h.2⟩
+  | translate v d t ih => intro p ρ p' ρ' h; exact ⟨h.1.symm, h.2.1.symm, fun q => ih _ _ _ _ (h.2.2 q)⟩
+  | rotate v d m c ih => intro p ρ p' ρ' h; exact ⟨h.1.symm, h.2.1.symm, h.2.2.1.symm, fun q => ih _ _ _ _ (h.2.2.2 q)⟩
+  | bdry d _ => intro _ _ _ _ _; trivial
+  | bdryL d _ => intro _ _ _ _ _; trivial
+  | bdryR d _ => intro _ _ _ _ _; trivial
+
 /-- **second factor, any expression**: prepending the first factor's coordinates `pa` to the point row changes
     nothing, provided `pa` binds none of the second factor's variables and its parameter functions ignore `pa` -/
-theorem envAgree_left (pa : Env K) (b : Dom K) : (∀ f ∈ b.pfuns, ∀ e : Env K, f.f (pa ++ e) = f.f e) →
+theorem envAgree_left (pa : Env K) (b : Dom K) : (∀ f ∈ b.pfuns, f.ignores pa) →
     (∀ v ∈ b.leafVars, pa.get v = none) → ∀ pb ρ, EnvAgree b pb ρ (pa ++ pb) ρ := by
+  have key : ∀ (f : PFun K), f.ignores pa → ∀ pb ρ : Env K, f.f (pb ++ ρ) = f.f ((pa ++ pb) ++ ρ) := by
+    intro f hf pb ρ
+    have := hf [] (pb ++ ρ)
+    simp only [List.nil_append] at this
+    rw [List.append_assoc, this]
   induction b with
   | interval v lb ub =>
     intro h hv pb ρ
     exact ⟨(env_get_append_none pa pb v (hv v (by simp [Dom.leafVars]))).symm,
-      by rw [List.append_assoc, h lb (by simp [Dom.pfuns])], by rw [List.append_assoc, h ub (by simp [Dom.pfuns])]⟩
+      key lb (h lb (by simp [Dom.pfuns])) pb ρ, key ub (h ub (by simp [Dom.pfuns])) pb ρ⟩
   | par v o c1 c2 =>
     intro h hv pb ρ
     exact ⟨(env_get_append_none pa pb v (hv v (by simp [Dom.leafVars]))).symm,
-      by rw [List.append_assoc, h o (by simp [Dom.pfuns])], by rw [List.append_assoc, h c1 (by simp [Dom.pfuns])],
-      by rw [List.append_assoc, h c2 (by simp [Dom.pfuns])]⟩
+      key o (h o (by simp [Dom.pfuns])) pb ρ, key c1 (h c1 (by simp [Dom.pfuns])) pb ρ, key c2 (h c2 (by simp [Dom.pfuns])) pb ρ⟩
   | tri v o c1 c2 =>
     intro h hv pb ρ
     exact ⟨(env_get_append_none pa pb v (hv v (by simp [Dom.leafVars]))).symm,
-      by rw [List.append_assoc, h o (by simp [Dom.pfuns])], by rw [List.append_assoc, h c1 (by simp [Dom.pfuns])],
-      by rw [List.append_assoc, h c2 (by simp [Dom.pfuns])]⟩
+      key o (h o (by simp [Dom.pfuns])) pb ρ, key c1 (h c1 (by simp [Dom.pfuns])) pb ρ, key c2 (h c2 (by simp [Dom.pfuns])) pb ρ⟩
   | circle v c r =>
     intro h hv pb ρ
     exact ⟨(env_get_append_none pa pb v (hv v (by simp [Dom.leafVars]))).symm,
-      by rw [List.append_assoc, h c (by simp [Dom.pfuns])], by rw [List.append_assoc, h r (by simp [Dom.pfuns])]⟩
+      key c (h c (by simp [Dom.pfuns])) pb ρ, key r (h r (by simp [Dom.pfuns])) pb ρ⟩
   | sphere v c r =>
     intro h hv pb ρ
     exact ⟨(env_get_append_none pa pb v (hv v (by simp [Dom.leafVars]))).symm,
-      by rw [List.append_assoc, h c (by simp [Dom.pfuns])], by rw [List.append_assoc, h r (by simp [Dom.pfuns])]⟩
+      key c (h c (by simp [Dom.pfuns])) pb ρ, key r (h r (by simp [Dom.pfuns])) pb ρ⟩
   | union a b iha ihb =>
     intro h hv pb ρ
     exact ⟨iha (fun f hf => h f (by simp [Dom.pfuns, hf])) (fun v hv' => hv v (by simp [Dom.leafVars, hv'])) pb ρ,
@@ -888,17 +942,22 @@ theorem envAgree_left (pa : Env K) (b : Dom K) : (∀ f ∈ b.pfuns, ∀ e : Env
       ihb (fun f hf => h f (by simp [Dom.pfuns, hf])) (fun v hv' => hv v (by simp [Dom.leafVars, hv'])) pb ρ⟩
   | translate v d t _ =>
     intro h hv pb ρ
-    exact ⟨(env_get_append_none pa pb v (hv v (by simp [Dom.leafVars]))).symm,
-      by rw [List.append_assoc, h t (by simp [Dom.pfuns])], fun q => envAgree_refl d _ ρ⟩
+    refine ⟨(env_get_append_none pa pb v (hv v (by simp [Dom.leafVars]))).symm, key t (h t (by simp [Dom.pfuns])) pb ρ, fun q => ?_⟩
+    rw [List.filter_append, filter_of_get_none pa v (hv v (by simp [Dom.leafVars])), List.append_assoc]
+    have := envAgree_ignore pa d (fun f hf => h f (by simp [Dom.pfuns, hf])) [(v, q)] [] (pb.filter (fun b => b.1 != v) ++ ρ)
+    simp only [List.nil_append] at this
+    exact envAgree_symm d _ _ _ _ this
   | rotate v d m c _ =>
     intro h hv pb ρ
-    exact ⟨(env_get_append_none pa pb v (hv v (by simp [Dom.leafVars]))).symm,
-      by rw [List.append_assoc, h m (by simp [Dom.pfuns])], by rw [List.append_assoc, h c (by simp [Dom.pfuns])],
-      fun q => envAgree_refl d _ ρ⟩
+    refine ⟨(env_get_append_none pa pb v (hv v (by simp [Dom.leafVars]))).symm, key m (h m (by simp [Dom.pfuns])) pb ρ,
+      key c (h c (by simp [Dom.pfuns])) pb ρ, fun q => ?_⟩
+    rw [List.filter_append, filter_of_get_none pa v (hv v (by simp [Dom.leafVars])), List.append_assoc]
+    have := envAgree_ignore pa d (fun f hf => h f (by simp [Dom.pfuns, hf])) [(v, q)] [] (pb.filter (fun b => b.1 != v) ++ ρ)
+    simp only [List.nil_append] at this
+    exact envAgree_symm d _ _ _ _ this
   | bdry d _ => intro _ _ pb ρ; trivial
   | bdryL d _ => intro _ _ pb ρ; trivial
   | bdryR d _ => intro _ _ pb ρ; trivial
-
 
 /-! ## 5. whole expressions: everything the composite samplers can return is a member -/
 
